@@ -13,7 +13,9 @@ os.makedirs(V+'/out/selftest',exist_ok=True)
 fails=0
 for e in entries:
     src=open(os.path.join(R,e['file'])).read()
-    if src.count(e['old'])!=1:
+    if e.get('first') and src.count(e['old'])>=1:
+        src=src.replace(e['old'],e['new'],1); e=dict(e,old=e['new'],new=e['new'])
+    if src.count(e['old'])!=1 and not e.get('first'):
         print(f"SELFTEST-STALE {e['id']}: pattern occurs {src.count(e['old'])} times"); fails+=1; continue
     mf=os.path.join(V,'out/selftest',e['id']+'_'+os.path.basename(e['file']))
     open(mf,'w').write(src.replace(e['old'],e['new']))
